@@ -188,6 +188,7 @@ pub fn hook(phase: u8, ev: &Event) -> Option<usize> {
         let mut g = S.lock().unwrap();
         if let Some(s) = g.as_mut() {
             s.freed += 1;
+            s.trace.push(format!("cdx {}", ["P", "W", "C"][t]));
             // the release of the storage must happen-after everything every other thread did to the buffer
             // (its index/flag/counter operations and its slot accesses): otherwise the deallocation races with them
             for u in 0..NT {
@@ -261,6 +262,7 @@ pub fn hook(phase: u8, ev: &Event) -> Option<usize> {
                 l.seen[t] = l.msgs.len() - 1;
                 let last = l.msgs.len() - 1;
                 if name == Sched::own_loc(t) { s.trace.push(format!("cst {} {}", ["P", "W", "C"][t], ev.val)); }
+                if name == ["prodAlive", "workAlive", "consAlive"][t] && ev.val == 0 { s.trace.push(format!("cdf {}", ["P", "W", "C"][t])); }
                 s.events.push(AtomicEv { t, kind: ev.kind, loc: name, ord: ord_name(ev.ord).into(), val: ev.val, read_idx: None, last_idx: last });
             }
             verif::RMW => {
@@ -276,6 +278,7 @@ pub fn hook(phase: u8, ev: &Event) -> Option<usize> {
                 l.msgs.push(Msg { val: usize::MAX, view, release: is_rel(ev.ord) || lastm.release, by: t, stamp });
                 l.seen[t] = l.msgs.len() - 1;
                 let last = l.msgs.len() - 1;
+                if name == "aliveIters" { s.trace.push(format!("cdd {} {}", ["P", "W", "C"][t], ev.val)); }
                 s.events.push(AtomicEv { t, kind: ev.kind, loc: name, ord: ord_name(ev.ord).into(), val: ev.val, read_idx: Some(last - 1), last_idx: last });
             }
             _ => {}
